@@ -299,6 +299,12 @@ def check_C21(run):
                               "successful Commit the bucket meta file written by the library is decoded with ReadBucketMeta and must "
                               "give exactly the smallest and largest key written so far (the record the library writes decodes to the "
                               "fields that were written)")])
+    n = 60 if run.tier == "quick" else 1500
+    hist_suite(run, "mergecorrupt", ["hist", "-n", n, "-x", "mergecorrupt"], "key/value histories over several segments; then one "
+               "bit of a record in a sealed segment (any byte except the size fields) is flipped on disk while the database is "
+               "open, Merge is called, and every Get - in the running process and after a reopen - must return an error or a "
+               "value that was written for that key at some time (corruption is never served as data, also not through Merge)",
+               use_driver=False)
 
 
 
@@ -588,6 +594,10 @@ def check_C20(run):
                "buckets, '|' separators, +-2^63 indexes and counts, NaN/Inf/denormal scores, invalid regexps, closed database, "
                "finished transactions, Merge/Backup/Close in any state, reopen with other options); panics are recovered per call and "
                "reported; a case is one call", use_driver=False)
+    n = 200 if run.tier == "quick" else 4000
+    hist_suite(run, "fuzzsparse", ["hist", "-n", n, "-x", "fuzzsparse"], "the same in HintBPTSparseIdxMode with the key/value calls "
+               "(the structures the sparse mode supports), 30 seeded writes, PrefixScan over buckets that hold keys with offsets "
+               "-1..3 and limits up to +-2^63", use_driver=False)
     check_hist_generic(run, [("list", "list", 200, 4000, RULE_HIST + "; profile list with +-2^63 arguments: a panic is a mismatch "
                               "with the (panic-free) model"),
                              ("zset", "zset", 200, 4000, RULE_HIST + "; profile zset with extreme ranks"),
@@ -701,6 +711,12 @@ def check_C17(run):
     hist_suite(run, "concmerge", ["hist", "-n", n, "-x", "concmerge"], RULE_CONC + "; additionally one goroutine per database calls "
                "Merge three times while the transactions run (sets instead of lists: known finding F14)", binary=b,
                env={"GORACE": "halt_on_error=0 exitcode=0"})
+    check_hist_generic(run, [("mergeduring", "mergeduring", 80, 1600, RULE_HIST + "; profile mergeduring: during 40% of the write "
+                              "transactions Merge is CALLED from another goroutine while the transaction holds the lock (it must wait "
+                              "and then work on the segments as they are when it gets the lock; the transactions rotate the segment); "
+                              "in the trace the Merge stands after the Commit (the serial order); sorted sets with positional "
+                              "removals, sets, key/value data, reopen after 30% of the transactions; Merge's known finding F30 is "
+                              "attributed as in C15")], known=known_merge)
     n = 36 if run.tier == "quick" else 600
     hist_suite(run, "backup", ["hist", "-n", n, "-x", "backup"], RULE_BACKUP + " (here for Merge against the read transaction that "
                "Backup is: a Merge issued while the copy is under way must wait; a Backup issued while Merge removes old segments "
